@@ -111,4 +111,15 @@ def tameRun : Nat → List Entry → List PTok → Option (List PTok)
             else none
     | _ => keep
 
+/-- what `Macro::parse` guarantees about a replacement list (`WFMacro`, decided), plus "no `##`" -/
+def wfB (m : Macro) : Bool :=
+  m.body.all (fun t =>
+    match t.tok with
+    | .hashhash => false
+    | .concat => false
+    | .id s => s.toList.head? != some '$'
+    | .arg i => decide (i < m.numParams) && m.isFunction
+    | _ => true)
+
+
 end RsslVerif.Model.MacroTame
